@@ -7,9 +7,11 @@ import (
 	"regexp"
 	"strconv"
 	"strings"
+	"sync"
 	"unicode/utf8"
 
 	"github.com/goccmack/gocc/verifx/internal/gram"
+	"github.com/goccmack/gocc/verifx/internal/model"
 	"github.com/goccmack/gocc/verifx/internal/run"
 )
 
@@ -183,11 +185,51 @@ func buildMd(r *rand.Rand, toks []gram.FTok) mdDoc {
 	return doc
 }
 
+var specCache *model.MSpec
+var specErr error
+var specMu sync.Mutex
+
+func specOnce() (*model.MSpec, error) {
+	specMu.Lock()
+	defer specMu.Unlock()
+	if specCache == nil && specErr == nil {
+		specCache, specErr = model.LoadMSpec(run.RepoDir)
+	}
+	return specCache, specErr
+}
+
+// runePos is the scanner's own position rule: line = 1 + newlines before the rune, column = 1 + runes
+// since the last newline before it.
+func runePos(text string, byteOff int) (int, int) {
+	line, col := 1, 1
+	for i, ch := range text {
+		if i >= byteOff {
+			break
+		}
+		if ch == '\n' {
+			line++
+			col = 1
+		} else {
+			col++
+		}
+	}
+	return line, col
+}
+
+// lastRunePos: where the front end reports an error at end of file (the position of the last character read).
+func lastRunePos(text string) (int, int) {
+	if text == "" {
+		return 1, 0
+	}
+	_, size := utf8.DecodeLastRuneInString(text)
+	return runePos(text, len(text)-size)
+}
+
 var posRe = regexp.MustCompile(`@ (\d+):(\d+)`)
 
 func runC19(c *Ctx) error {
 	n := c.Pick(100, 2000)
-	c.Rule = "grammars laid out in 1-6 bare ``` fenced blocks (fences on their own lines, or inline on a line shared with prose) between random prose (inline back-quotes, non-ASCII, CRLF, tabs, empty blocks, file ending right after a fence); (a) x.md versus the concatenated fenced text as x.bnf, same directory and package path: generated .go files must be byte-identical; (b) the same .md with one stray token injected into the lexical part: the diagnostic's line:column must be the token's line and rune column in the .md file; one evaluation = one pair or one diagnostic; non-trivial = document with at least two blocks or prose before the first block; distinct by .md text"
+	c.Rule = "grammars laid out in 1-6 bare ``` fenced blocks (fences on their own lines, or inline on a line shared with prose) between random prose (inline back-quotes, non-ASCII, CRLF, tabs, empty blocks, file ending right after a fence); (a) x.md versus the concatenated fenced text as x.bnf, same directory and package path: generated .go files must be byte-identical; (b) the same .md with one stray token injected anywhere (so that M-SPEC finds the file unacceptable): the position in the diagnostic of the .md run must be the .md position of the very token (or end of file) that the run on the extracted text complains about; one evaluation = one pair or one diagnostic; non-trivial = document with at least two blocks or prose before the first block; distinct by .md text"
 	c.Assumptions = []string{"fenced text is extracted by the harness's own 10-line reader of the property's definition", "only valid UTF-8 documents (md.go converts through []rune)"}
 	if err := twinModules(c); err != nil {
 		return err
@@ -214,49 +256,107 @@ func mdUnit(c *Ctx, g *gram.Grammar, seed int64, inject bool, name string, sampl
 	w := &Witness{Kind: "c19", Grammar: g, Ints: []int64{seed}}
 	if inject {
 		w.Kind = "c19-diag"
-		// a stray token inside the lexical part: after some ';' that is followed by another lexical definition
-		var spots []int
-		for i, t := range toks {
-			if t.Type == ";" && i+1 < len(toks) && (toks[i+1].Type == "tokId" || toks[i+1].Type == "regDefId" || toks[i+1].Type == "ignoredTokId") {
-				spots = append(spots, i+1)
-			}
-		}
-		if len(spots) == 0 {
+		// a stray token anywhere in the grammar; M-SPEC tells which token is the first one that makes
+		// the sequence unacceptable (canonical LR(1) tables detect the error exactly there)
+		spec, err := specOnce()
+		if err != nil {
+			c.Inconclusive("M-SPEC unavailable: " + err.Error())
 			return
 		}
-		at := spots[r.Intn(len(spots))]
-		stray := []gram.FTok{{Text: ")", Type: ")"}, {Text: ";", Type: ";"}, {Text: "|", Type: "|"}, {Text: "'x'", Type: "char_lit"}, {Text: "]", Type: "]"}}[r.Intn(5)]
-		toks = append(toks[:at:at], append([]gram.FTok{stray}, toks[at:]...)...)
+		at := -1
+		var stray gram.FTok
+		for try := 0; try < 20; try++ {
+			pos := r.Intn(len(toks) + 1)
+			st := []gram.FTok{{Text: ")", Type: ")"}, {Text: ";", Type: ";"}, {Text: "|", Type: "|"}, {Text: "'x'", Type: "char_lit"}, {Text: "]", Type: "]"}, {Text: ":", Type: ":"}, {Text: "Zq9", Type: "prodId"}, {Text: "-", Type: "-"}}[r.Intn(8)]
+			cand := append(append(append([]gram.FTok(nil), toks[:pos]...), st), toks[pos:]...)
+			ids := make([]int, 0, len(cand))
+			ok := true
+			for _, t := range cand {
+				id, known := spec.CFG.TermID(model.SpecTermName(t.Type))
+				if !known {
+					ok = false
+					break
+				}
+				ids = append(ids, id)
+			}
+			if !ok {
+				continue
+			}
+			er := spec.Earley.Run(ids)
+			if er.Accepted || er.FirstBad >= len(cand) {
+				continue // still well-formed, or only wrong at end of file
+			}
+			toks, at, stray = cand, er.FirstBad, st
+			break
+		}
+		if at < 0 {
+			return
+		}
 		doc := buildMd(r, toks)
+		bnf := fencedText(doc.md)
 		res := c.W.RunGocc(name, []byte(doc.md), run.GoccOpts{Flags: []string{"-a"}, Ext: ".md", WorkSub: "ma"})
+		ref := c.W.RunGocc(name, []byte(bnf), run.GoccOpts{Flags: []string{"-a"}, WorkSub: "mb"})
 		defer os.RemoveAll(res.OutDir)
+		defer os.RemoveAll(ref.OutDir)
 		c.Eval(1)
-		if res.TimedOut || res.Budget || res.Hook96 || res.CPUKill {
-			c.Inconclusive(name + ": gocc run could not be judged")
+		for _, x := range []run.GoccResult{res, ref} {
+			if x.TimedOut || x.Budget || x.Hook96 || x.CPUKill {
+				c.Inconclusive(name + ": gocc run could not be judged")
+				return
+			}
+		}
+		w.Input = []byte(doc.md)
+		if res.Exit == 0 || ref.Exit == 0 {
+			if res.Exit != ref.Exit {
+				w.Note = fmt.Sprintf("exit status %d on the .md file, %d on its fenced text", res.Exit, ref.Exit)
+				c.Violation(w)
+			}
+			return // C14 judges acceptance of ill-formed files
+		}
+		mRef := posRe.FindStringSubmatch(ref.Stdout)
+		m := posRe.FindStringSubmatch(res.Stdout)
+		if mRef == nil || m == nil {
+			if (mRef == nil) != (m == nil) {
+				w.Note = "one of the two runs reports a position, the other does not: " + trunc(res.Stdout, 150) + " / " + trunc(ref.Stdout, 150)
+				c.Violation(w)
+			}
+			return
+		}
+		// which token does the diagnostic of the plain run point at? its position in the .md file is the expectation
+		want := ""
+		bnfOff := 0
+		for ti, t := range toks {
+			k := strings.Index(bnf[bnfOff:], t.Text)
+			if k < 0 {
+				break
+			}
+			bnfOff += k
+			l, cc := runePos(bnf, bnfOff)
+			if fmt.Sprintf("%d:%d", l, cc) == mRef[1]+":"+mRef[2] {
+				want = fmt.Sprintf("%d:%d", doc.line[ti], doc.col[ti])
+				break
+			}
+			bnfOff += len(t.Text)
+		}
+		if want == "" {
+			if l, cc := lastRunePos(bnf); fmt.Sprintf("%d:%d", l, cc) == mRef[1]+":"+mRef[2] {
+				// reported at end of file: the .md run reports the end of the .md file
+				ml, mc := lastRunePos(doc.md)
+				want = fmt.Sprintf("%d:%d", ml, mc)
+			}
+		}
+		if want == "" {
+			c.Inconclusive(name + ": the plain run's diagnostic position could not be mapped to a token")
 			return
 		}
 		c.Nontrivial(doc.md)
-		want := fmt.Sprintf("%d:%d", doc.line[at], doc.col[at])
 		if sample {
-			c.Sample(map[string]interface{}{"md": doc.md, "injected_token": stray.Text, "expected_position": want, "stdout": trunc(res.Stdout, 300)})
-		}
-		m := posRe.FindStringSubmatch(res.Stdout)
-		if res.Exit == 0 {
-			w.Input = []byte(doc.md)
-			w.Note = "gocc accepted a markdown grammar with a stray token in its lexical part"
-			w.Observed = trunc(res.Stdout, 300)
-			c.Violation(w)
-			return
-		}
-		if m == nil {
-			c.Inconclusive(name + ": diagnostic without position: " + trunc(res.Stdout, 200))
-			return
+			c.Sample(map[string]interface{}{"md": doc.md, "injected_token": stray.Text, "first_unacceptable_token_index": at, "expected_position": want, "stdout_md": trunc(res.Stdout, 300), "stdout_bnf": trunc(ref.Stdout, 300)})
 		}
 		if got := m[1] + ":" + m[2]; got != want {
-			w.Input = []byte(doc.md)
 			w.Expected = want
 			w.Observed = trunc(res.Stdout, 300)
-			w.Note = fmt.Sprintf("diagnostic reports %s, the offending token %q is at %s in the .md file", got, stray.Text, want)
+			w.Note = fmt.Sprintf("diagnostic on the .md file reports %s; the text the plain run complains about (%s in the fenced text, after inserting a stray %q) is at %s in the .md file", got, mRef[1]+":"+mRef[2], stray.Text, want)
 			c.Violation(w)
 		}
 		return
